@@ -8,14 +8,14 @@ use serde_json::{json, Value};
 use std::sync::atomic::{AtomicU64, Ordering};
 
 #[derive(Clone, Debug, PartialEq)]
-struct Entry {
-    name: String,
-    pk: String,
-    sk: Option<String>,
+pub struct Entry {
+    pub name: String,
+    pub pk: String,
+    pub sk: Option<String>,
 }
 
 #[derive(Debug, PartialEq)]
-enum Class {
+pub enum Class {
     /// in the documented well-formed subset: must be accepted with exactly these entries
     WellFormed(Vec<Entry>),
     /// violates a necessary condition of the statement unambiguously: must be rejected
@@ -32,7 +32,7 @@ fn sk_well_formed(v: &str) -> bool {
 }
 
 /// REF's reading of a keyring text (from docs/kestrel.1.md and the property statement).
-fn classify(text: &str) -> Class {
+pub fn classify(text: &str) -> Class {
     #[derive(Default)]
     struct Sec {
         names: Vec<String>,
